@@ -400,7 +400,7 @@ impl Check for C13 {
         "fault_enumeration"
     }
     fn rule(&self) -> String {
-        "differential twin runs: a generated prefix (no cancellation, deterministic transport that pends once before every read/write/flush and accepts 1 byte / all / all-but-one / 3 bytes per write) ends with one final request R in {publish QoS 1, publish QoS 2, subscribe, unsubscribe, poll, recv, drive, disconnect}; the reference executes R uncancelled and drains the connection; each variant drops R's future at await index j (every j the reference saw, optionally after 1 or 3 earlier cancelled attempts), keeps polling until idle, re-issues R if the snapshot says it was not enqueued, and drains. Decoded outbound packets (bytes included) of all connections and the delivered messages must equal the reference. Variants: the prefix may itself contain cancelled operations; with keep-alive on, the PINGREQ deadline falls right before the request or right after it (then the position of the PINGREQ is not compared); a queue-based request is followed by a QoS 0 publish; after a cancelled disconnect() the application polls first (weaker relation: nothing of the reference missing or reordered, same final DISCONNECT), or drops the handle and connects again (the next connection must lie between the run with the completed disconnect and the run without any), optionally after one more request on the closing handle (a refused request is on no connection's wire). Where wire and deliveries agree and both runs ended idle, the send-state tables (retained, release, control: identifier and state) of both sessions agree as well. Non-trivial iff the cancellation happened (the future was really dropped while pending); distinct keys = (request kind, await kind, bytes-of-the-packet-already-written bucket).".into()
+        "differential twin runs: a generated prefix (no cancellation, deterministic transport that pends once before every read/write/flush and accepts 1 byte / all / all-but-one / 3 bytes per write) ends with one final request R in {publish QoS 1, publish QoS 2, subscribe, unsubscribe, poll, recv, drive, disconnect}; the reference executes R uncancelled and drains the connection; each variant drops R's future at await index j (every j the reference saw, optionally after 1 or 3 earlier cancelled attempts), keeps polling until idle, re-issues R if the snapshot says it was not enqueued, and drains. Decoded outbound packets (bytes included) of all connections and the delivered messages must equal the reference. Variants: the prefix may itself contain cancelled operations; with keep-alive on, the PINGREQ deadline falls right before the request or right after it (then the position of the PINGREQ is not compared); a queue-based request is followed by a QoS 0 publish; after a cancelled disconnect() the application polls first (weaker relation: nothing of the reference missing or reordered, same final DISCONNECT), or drops the handle and connects again (the next connection must lie between the run with the completed disconnect and the run without any), optionally after one more request on the closing handle (a refused request is on no connection's wire); one disconnect request in three is made again with another reason and other properties, and the run must then equal the reference that asked for the first DISCONNECT or a second reference that asked for the other one from the start. Workload given-up-request-then-refused-request: eight retained slots in use, the eighth request given up at each of its awaits, then a request that must be refused, then the end of the connection. Where wire and deliveries agree and both runs ended idle, the send-state tables (retained, release, control: identifier and state) of both sessions agree as well. Non-trivial iff the cancellation happened (the future was really dropped while pending); distinct keys = (request kind, await kind, bytes-of-the-packet-already-written bucket).".into()
     }
     fn assumptions(&self) -> Vec<String> {
         let mut v: Vec<String> = COMMON_ASSUME.iter().map(|s| s.to_string()).collect();
@@ -1649,7 +1649,7 @@ impl Check for C15 {
         "exploration"
     }
     fn rule(&self) -> String {
-        "differential twin runs: a generated program (benign faults only: broker DISCONNECT / close) is recorded with whole-buffer reads and writes and re-executed, step for step, under (a) every one of the 2^(n-1) chunkings of the first connection's inbound stream when it is at most 12 bytes long, sampled chunkings (1 byte, 2 bytes, random, splits after byte 1 and inside the length) otherwise, and (b) write acceptance patterns {1 byte, random, alternating 1/all, all-but-one, 3 bytes}, each with and without a Pending before every call. Operation results, delivered messages and the outbound byte stream of every connection must equal the reference. (c) time-gapped delivery: the same program with the inbound stream stalling 0..20 bytes into whatever the broker sends next (inside packets), the abandoned poll()/recv() repeated; (d) workload stalls-under-keepalive: keep-alive 1/2/10 s and stalls that outlast the client's own deadline, so that the library itself abandons a read in the middle of a packet, sends PINGREQ and resumes: delivered messages, results of all requests, errors and outbound packets other than PINGREQ must equal the run without stalls. Non-trivial iff the variant split at least one packet; distinct = distinct abstract traces x policy.".into()
+        "differential twin runs: a generated program (benign faults only: broker DISCONNECT / close) is recorded with whole-buffer reads and writes and re-executed, step for step, under (a) every one of the 2^(n-1) chunkings of the first connection's inbound stream when it is at most 12 bytes long, sampled chunkings (1 byte, 2 bytes, random, splits after byte 1 and inside the length) otherwise, and (b) write acceptance patterns {1 byte, random, alternating 1/all, all-but-one, 3 bytes}, each with and without a Pending before every call. Operation results, delivered messages and the outbound byte stream of every connection must equal the reference. (b') workload send-buffer-full-inside-a-packet: a request is given up inside its own packet on a full send buffer, the next call (disconnect, poll, QoS 0/1/2 publish, subscribe, unsubscribe) finishes it under six write patterns - and, every other pattern, finds the buffer full a second time while doing so, is given up as well and made again: stream and results as with whole writes and no second stall. (c) time-gapped delivery: the same program with the inbound stream stalling 0..20 bytes into whatever the broker sends next (inside packets), the abandoned poll()/recv() repeated; (d) workload stalls-under-keepalive: keep-alive 1/2/10 s and stalls that outlast the client's own deadline, so that the library itself abandons a read in the middle of a packet, sends PINGREQ and resumes: delivered messages, results of all requests, errors and outbound packets other than PINGREQ must equal the run without stalls. Non-trivial iff the variant split at least one packet; distinct = distinct abstract traces x policy.".into()
     }
     fn assumptions(&self) -> Vec<String> {
         let mut v: Vec<String> = COMMON_ASSUME.iter().map(|s| s.to_string()).collect();
